@@ -42,7 +42,9 @@ DEFAULT = {
     "p_r_only_filter": 0.25,   # r enters no function but the filter (and transitions)
     "p_unused_choice": 0.15,
     "p_param_collision": 0.3,  # the parameter name k also in the constraint and in next_w, with other values
-    "p_param_only_aux": 0.2,   # an auxiliary function of parameters only   # b enters no function at all / only a constraint
+    "p_param_only_aux": 0.2,   # an auxiliary function of parameters only
+    "no_period": False,        # no function may depend on the period (horizon-shift law)
+    "all_admitted": False,     # filters exclude no state   # b enters no function at all / only a constraint
     "betas": [F(1, 2), F(3, 4), F(1), F(0), F(1, 4)],
     "inexact": False,
     "shuffle": True,
@@ -83,6 +85,8 @@ def rand_model(rng: random.Random, over=None):  # noqa: C901, PLR0912, PLR0915
 def _rand_model_once(rng, P):  # noqa: C901, PLR0912, PLR0915
     T = rng.choice(P["T"])
     feat = {}
+    if P["no_period"]:
+        P = dict(P, p_per_filter=0.0, p_period_util=0.0, p_period_aux=0.0, p_period_next=0.0)
     has = lambda k: rng.random() < P[k]  # noqa: E731
     has_w = has("p_w")
     has_z = has("p_z")
@@ -164,7 +168,7 @@ def _rand_model_once(rng, P):  # noqa: C901, PLR0912, PLR0915
         for t in range(T):
             if t == 0 or per_filter:
                 while True:
-                    adm = [r for r in range(nr) if rng.random() < 0.7]
+                    adm = [r for r in range(nr) if rng.random() < 0.7 or P["all_admitted"]]
                     if adm:
                         break
                 mk = [[(r in adm) and rng.random() < 0.6 for _ in range(na)] for r in range(nr)]
@@ -331,7 +335,7 @@ def _rand_model_once(rng, P):  # noqa: C901, PLR0912, PLR0915
             deps = ["h"]
             if dchoices and rng.random() < 0.8:
                 deps.append(rng.choice(dchoices)["name"])
-            if T > 1 and rng.random() < 0.6:
+            if T > 1 and rng.random() < 0.6 and not P["no_period"]:
                 deps.append("_period")
             if has_r and rng.random() < 0.4:
                 deps.append("r")
